@@ -131,6 +131,16 @@ class GenericRules(unittest.TestCase):
         self.assertEqual(self.run_named("in_place_cannot_broadcast", "separable_in_place"), ["VIOLATED"])
         self.assertEqual(self.run_named("in_place_cannot_broadcast", "separable_out_of_place"), ["DISCHARGED"])
 
+    def test_keyword_popped_and_lost(self):
+        from vstat import paths
+        saved = paths._INVENTORY
+        paths._INVENTORY = set(paths.known_functions() or ()) | {"mini.core._make_nodes"}
+        try:
+            self.assertEqual(self.run_named("popped_keywords", "pops_and_loses"), ["VIOLATED"])
+            self.assertEqual(self.run_named("popped_keywords", "pops_and_forwards"), ["DISCHARGED"])
+        finally:
+            paths._INVENTORY = saved
+
     def test_gather_with_the_permutation_itself_is_reported(self):
         self.assertEqual(self.run_rule("nested_windows_wrong"), ["VIOLATED"])
 
